@@ -278,7 +278,11 @@ pub fn summarize(p: &Plan) -> String {
 impl Property for C02 {
     fn id(&self) -> &'static str { "C02" }
     fn runs(&self, tier: Tier) -> u64 { match tier { Tier::Quick => 6000, Tier::Thorough => 120000 } }
-    fn gen_plan(&self, seed: u64, tier: Tier) -> Value { serde_json::to_value(generate(seed, tier, None)).unwrap() }
+    fn gen_plan(&self, seed: u64, tier: Tier) -> Value {
+        // a quarter of the plans: HTTP/2 frontend with several streams, one of them the victim
+        if Prng::derive(seed, "c02/family").below(4) == 0 { return serde_json::to_value(super::c02_mux::generate(seed, tier)).unwrap(); }
+        serde_json::to_value(generate(seed, tier, None)).unwrap()
+    }
     fn enumerated(&self, tier: Tier) -> Vec<Value> {
         // fault enumeration: backend closes / stalls at *every* byte offset of a small response
         let mut v = Vec::new();
@@ -296,6 +300,17 @@ impl Property for C02 {
         v
     }
     fn run_plan(&self, plan: &Value) -> RunReport {
+        if plan.get("mux").is_some() {
+            let p: super::c02_mux::MuxFaultPlan = match serde_json::from_value(plan.clone()) { Ok(p) => p, Err(e) => return RunReport { harness_error: Some(format!("bad plan: {e}")), ..Default::default() } };
+            let o = crate::muxscn::run_mux(&p.mux, false);
+            let violations = super::c02_mux::oracle(&p, &o);
+            let mut rep = RunReport { seed: p.mux.seed, family: p.mux.family.clone(), violations, trace_hash: o.trace_hash, stats: o.stats.clone(), summary: super::c02_mux::summarize(&p), ..Default::default() };
+            let obs = crate::muxscn::h2_client_obs(&o.h2_clients[0], p.victim);
+            rep.nontrivial = o.h2_clients[0].frames_recv_total > 2;
+            rep.probes.insert(format!("h2_victim_outcome:{}", if obs.answered && obs.sim_id == Some(p.victim) { if obs.complete { "relayed_complete" } else if obs.aborted.is_some() { "relayed_then_rst" } else { "relayed_then_conn_end" } } else if obs.answered { "proxy_answer" } else if obs.aborted.is_some() { "rst_without_answer" } else { "nothing" }), 1);
+            if let Some(e) = o.boot_error { rep.harness_error = Some(format!("worker boot failed: {e}")); }
+            return rep;
+        }
         let p: Plan = match serde_json::from_value(plan.clone()) { Ok(p) => p, Err(e) => return RunReport { harness_error: Some(format!("bad plan: {e}")), ..Default::default() } };
         let o = run_http(&p.http, false);
         let violations = oracle(&p, &o);
@@ -307,6 +322,10 @@ impl Property for C02 {
         rep
     }
     fn shrink(&self, plan: &Value) -> Vec<Value> {
+        if plan.get("mux").is_some() {
+            let Ok(p) = serde_json::from_value::<super::c02_mux::MuxFaultPlan>(plan.clone()) else { return vec![] };
+            return super::c02_mux::shrink(&p).into_iter().map(|q| serde_json::to_value(q).unwrap()).collect();
+        }
         let Ok(p) = serde_json::from_value::<Plan>(plan.clone()) else { return vec![] };
         let mut out = Vec::new();
         for h in c01::shrink_http(&p.http) {
@@ -335,6 +354,11 @@ impl Property for C02 {
         out
     }
     fn debug_plan(&self, plan: &Value) -> String {
+        if plan.get("mux").is_some() {
+            let p: super::c02_mux::MuxFaultPlan = serde_json::from_value(plan.clone()).unwrap();
+            let o = crate::muxscn::run_mux(&p.mux, false);
+            return format!("{}\nviolations: {:#?}\n{}", super::c02_mux::summarize(&p), super::c02_mux::oracle(&p, &o), super::c14::debug_mux(&p.mux));
+        }
         let p: Plan = serde_json::from_value(plan.clone()).unwrap();
         format!("{}\n{}", summarize(&p), c01::debug_http(&serde_json::to_value(&p.http).unwrap()))
     }
@@ -345,7 +369,7 @@ impl Property for C02 {
             assumptions: vec!["AF_UNIX stands in for TCP", "release semantics", "status table taken from the property statement; where two causes coincide either status is accepted"],
             real: vec!["sozu_lib::server::Server::run (mux, answers, timers, retry, backends)", "mio", "Linux epoll + AF_UNIX"],
             stub: vec!["IP network", "clock (virtual: back/connect/request timeouts fire in microseconds of wall time)", "entropy", "clients", "backends", "master"],
-            not_covered: vec!["HTTP/2 and TLS pairs (RST_STREAM / GOAWAY aborts), 421 and 429 outcomes (see C17 / C16)"],
+            not_covered: vec!["H2 backends and H1-over-TLS frontends; routing causes (404/401/503) on the H2 frontend; 421 and 429 outcomes (see C17 / C16)"],
         }
     }
 }
